@@ -604,10 +604,11 @@ class TypeNormalizer:
     @_aspect_storage.add
     def _norm_annotated(self, tp, origin, args):
         if origin == Annotated:
-            return _AnnotatedNormType(
-                (self.normalize(args[0]), *args[1:]),
-                source=tp,
-            )
+            norm = self.normalize(args[0])
+            if norm.origin == Annotated:
+                # nested Annotated are flattened (PEP 593); typing does it only when the inner one is written directly
+                return _AnnotatedNormType((*norm.args, *args[1:]), source=tp)
+            return _AnnotatedNormType((norm, *args[1:]), source=tp)
 
     def _get_bound(self, type_var) -> Bound:
         return (
